@@ -287,6 +287,24 @@ static std::string basic(bool caseSensitive, const std::string &hdr) {
     return res;
 }
 
+// Size of the cleartext allocation of decodeCleartext, observed through ASan's allocation hooks: the header carries a
+// 400 character payload, so the buffer is BASE64_DECODE_LENGTH(400) = 300 bytes plus whatever slack the code adds; no
+// other allocation of the call has a size in [300, 364] (the header copy is 401 bytes). The payload is rejected at its
+// first character, so nothing is stored and the probe itself cannot overflow a buffer that is too small.
+extern "C" int __sanitizer_install_malloc_and_free_hooks(void (*malloc_hook)(const volatile void *, size_t), void (*free_hook)(const volatile void *));
+static size_t hookMin = 0;
+static bool hookOn = false;
+static void mallocHook(const volatile void *, size_t n) { if (hookOn && n >= 300 && n <= 364 && (!hookMin || n < hookMin)) hookMin = n; }
+static void freeHook(const volatile void *) {}
+static long cleartextAlloc() {
+    if (!__sanitizer_install_malloc_and_free_hooks(mallocHook, freeHook)) return -1;
+    const std::string hdr = "Basic " + std::string(400, '*');
+    hookOn = true;
+    (void)basic(true, hdr);
+    hookOn = false;
+    return hookMin ? static_cast<long>(hookMin) - 300 : -1;
+}
+
 static void dumpTables() {
     const C36Impl *impls[2] = {&c36_local, &c36_nettle};
     const char *names[2] = {"local", "nettle"};
@@ -306,6 +324,7 @@ static void dumpTables() {
         for (size_t n = 0; n <= 100; ++n) printf(" %zu", I.raw_length(n));
         printf("\n%s final_length %zu\n", names[k], I.final_length);
     }
+    printf("basic cleartext_extra %ld\n", cleartextAlloc());
 }
 
 int main(int argc, char **argv) {
